@@ -4,7 +4,8 @@ from corebase import CHECK_MODS, CASE_TYPE, CORR, run_impl, encode, shrink  # no
 
 PROP = 'C03'
 PROPCHK = 'C03_prop'
-THEOREMS = ['C03_write_preserves_chain', 'C03_write_frames_others', 'C03_reachable_chain', 'C03_hierarchy_pass_closes_superseded',
+THEOREMS = ['C03_write_preserves_chain', 'C03_write_frames_others', 'C03_reachable_chain', 'C03_reachable_hierarchy_chain',
+            'C03_trace_hypothesis_decidable', 'C03_hierarchy_pass_closes_superseded',
             'C03_hierarchy_pass_frame', 'C03_machine_applies_the_pass', 'C03_hierarchy_hypotheses_decidable',
             'C03_hierarchy_example', 'C03_example']
 RULE = ('seeded user programs under strategy=validity (blog shape with relationships, composite/string-key shape with an '
